@@ -459,6 +459,8 @@ def _alias_maps():
     for r in (1, 2, 3):
         for vs in itertools.product(vals, repeat=r):
             out.append(dict(zip(keys[:r], vs)))
+    # self-maps of the variables themselves (a variable listed under its own name is no alias and hides nothing)
+    out += [{'Y': 'Y'}, {'a1': 'Y', 'Y': 'Y'}, {'C': 'C', 'a1': 'C', 'a2': 'a1'}, {'Y': 'Y', 'C': 'C', 'a1': 'a1'}]
     return out
 
 
